@@ -230,9 +230,10 @@ func splitKey(k string) (string, string) {
 // ---- state ----
 
 type base struct {
-	id   string
-	cond Term
-	a, b *base
+	id    string
+	cond  Term
+	a, b  *base
+	alloc string // allocation frontier the leaf heaps of this base are well formed for ("" : unknown)
 }
 
 type State struct {
@@ -269,6 +270,9 @@ func (vc *VC) baseHeap(b *base, key string) Term {
 		if !vc.heapDecl[name] {
 			vc.heapDecl[name] = true
 			vc.cmd(fmt.Sprintf("(declare-const %s %s)", name, srt))
+			if b.alloc != "" {
+				vc.heapWF(Term{name, srt}, key, b.alloc)
+			}
 		}
 		return Term{name, srt}
 	}
@@ -300,6 +304,7 @@ func (vc *VC) havocAll(s *State, guard Term) {
 	s.H = map[string]Term{}
 	s.Base = vc.newBase()
 	s.Alloc = vc.declare("alloc", SInt)
+	s.Base.alloc = s.Alloc.S
 	vc.assume(True, Ge(s.Alloc, old))
 }
 
@@ -511,4 +516,38 @@ func trunc(s string, n int) string {
 		return s[:n] + "..."
 	}
 	return s
+}
+
+// heapWF: every reference stored in a (freshly introduced) heap component is well formed for the
+// allocation frontier al -- the memory of a Go program never holds a pointer, slice or interface
+// payload that refers to an object not yet allocated.  Without this a reference read inside a
+// quantified spec expression (where no load instruction supplies the type invariant) could denote
+// an object that a later allocation "creates".
+func (vc *VC) heapWF(h Term, key string, al string) {
+	var wf, inner string
+	switch {
+	case strings.HasPrefix(key, "P_"):
+		wf, inner = "wfptr", "(select (select "+h.S+" o) j)"
+	case strings.HasPrefix(key, "S_"):
+		wf, inner = "wfslice", "(select (select "+h.S+" o) j)"
+	case strings.HasPrefix(key, "F_"):
+		wf, inner = "wfiface", "(select (select "+h.S+" o) j)"
+	case strings.HasPrefix(key, "MK:"):
+		p := strings.SplitN(key[3:], "|", 2)
+		switch p[1] {
+		case SPtr:
+			wf = "wfptr"
+		case SSlice:
+			wf = "wfslice"
+		case SIface:
+			wf = "wfiface"
+		default:
+			return
+		}
+		vc.cmd(fmt.Sprintf("(assert (forall ((o Int) (j %s)) (! (%s (select (select %s o) j) %s) :pattern ((select (select %s o) j)))))", p[0], wf, h.S, al, h.S))
+		return
+	default:
+		return
+	}
+	vc.cmd(fmt.Sprintf("(assert (forall ((o Int) (j Int)) (! (%s %s %s) :pattern (%s))))", wf, inner, al, inner))
 }
